@@ -211,7 +211,7 @@ fn random_op(rng: &mut Rng, k: OpKind) -> Op {
     Op::new(k, a, b, c, d)
 }
 
-fn gen_script(rng: &mut Rng, prof: &Profile, minor: u32, abuser: bool, conformant: bool) -> Vec<Op> {
+fn gen_script(rng: &mut Rng, prof: &Profile, minor: u32, abuser: bool, conformant: bool, garbage: bool) -> Vec<Op> {
     let n = rng.range(prof.ops.0, prof.ops.1);
     let kinds: Vec<OpKind> = prof.weights.iter().map(|w| w.0).collect();
     let weights: Vec<u32> = prof.weights.iter().map(|w| w.1).collect();
@@ -242,6 +242,9 @@ fn gen_script(rng: &mut Rng, prof: &Profile, minor: u32, abuser: bool, conforman
             };
             let mut op = random_op(rng, k);
             op.c = rng.next_u32() >> 8; // garbage payload shape now and then (c % 16 == 15)
+            if !garbage && op.c % 16 == 15 {
+                op.c -= 1;
+            }
             op.d = rng.next_u32() & 0x1ff;
             script.push(op);
             continue;
@@ -303,6 +306,9 @@ pub fn gen_wire_plan(prop: Prop, seed: u64, tier: Tier) -> WirePlan {
 
     let n_abusers = if prop == Prop::C11 { rng.range(1, 2) } else { 0 };
     let conformant_others = prop == Prop::C11;
+    // Ill-formed payloads trigger known finding S3 (a bystander's connection dies); keep 90 % of
+    // the runs clear of it so that they are evaluated to the end.
+    let garbage = rng.chance(1, 10);
 
     for i in 0..n_actors {
         let (mut major, mut minor, mut legacy) = pick_version(&mut rng);
@@ -322,7 +328,7 @@ pub fn gen_wire_plan(prop: Prop, seed: u64, tier: Tier) -> WirePlan {
         let abuser = i < n_abusers;
         let connects = if legacy { minor == 14 } else { major == 1 && minor >= 14 };
         let script = if connects {
-            gen_script(&mut rng, &prof, minor, abuser, conformant_others && !abuser)
+            gen_script(&mut rng, &prof, minor, abuser, conformant_others && !abuser, garbage)
         } else {
             Vec::new()
         };
@@ -333,6 +339,7 @@ pub fn gen_wire_plan(prop: Prop, seed: u64, tier: Tier) -> WirePlan {
             capacity: pick_capacity(&mut rng),
             abuser,
             conformant: conformant_others && !abuser,
+            window: *rng.pick(&[1usize, 1, 2, 4, 0]),
             script,
         });
     }
@@ -352,6 +359,7 @@ pub fn gen_wire_plan(prop: Prop, seed: u64, tier: Tier) -> WirePlan {
             capacity: 0,
             abuser: false,
             conformant: true,
+            window: 1,
             script,
         });
     }
